@@ -4,7 +4,8 @@ package main
 //
 // c02-mini: MINIMAL packages, enumerated, not drawn. One struct with one member (plus a few with two),
 // over the cross product  leaf kind × required/optional × nullable/not × default/no default, each under
-// a fixed configuration (Go default flags, Python/Java marshaller OFF) and under configurations that
+// two fixed configurations (Go default flags with the other languages' marshaller OFF and nothing else;
+// everything on: builders, converters, api reference, marshallers) and under configurations that
 // rotate through the combination table (all of them in thorough). The random terms of c02-lab are rich:
 // whatever one template branch forgets to import / declare is supplied by some other member of the same
 // package. In a one-member package a branch stands alone.
@@ -280,6 +281,8 @@ func init() {
 		// the fixed configuration: Go defaults (marshaller + strict + equal + validate), no builders,
 		// marshaller of the other languages OFF
 		fixed := c02Combo{Go: defaultGoFlags()}
+		// the second fixed configuration: everything on — builders, converters, api reference, marshallers
+		full := c02Combo{Go: defaultGoFlags(), Builders: true, Converters: true, APIRef: true, LangMarshal: true}
 		rotating := 1
 		if thorough {
 			rotating = argInt(args, "rotating", 5)
@@ -293,7 +296,7 @@ func init() {
 				formats = labFormats
 			}
 			for _, f := range formats {
-				cfgs := []c02Combo{fixed}
+				cfgs := []c02Combo{fixed, full}
 				for r := 0; r < rotating; r++ {
 					j := si*31 + seed*7 + r*len(shapes) + k
 					cfgs = append(cfgs, c02Mode(j, combos[j%len(combos)]))
